@@ -417,8 +417,8 @@ def rr_rules(ctx, A):
                          flds.get('doc', ('x',))[0] == 'agg' and flds['doc'][1].endswith('Option::None') and
                          flds.get('is_base') == ('int', 0, 'bool') and name_ok)
                 # only applied to regions without a name
-                dom = any(s['cond'][0] == 'discr' and strip(s['cond'][1])[0] == 'field' and strip(s['cond'][1])[2] == 'name' and lab == 'None'
-                          and rr.dominates(tgt, bi) for s in rr.switches() for lab, tgt in s['edges'])
+                dom = any(norm_pred(s['cond'], lab)[0] == 'is_none' and strip(norm_pred(s['cond'], lab)[1])[0] == 'field' and strip(norm_pred(s['cond'], lab)[1])[2] == 'name'
+                          and rr.dominates(tgt, bi) and rr.pred(tgt) == [s['block']] for s in rr.switches() for lab, tgt in s['edges'])
                 st_ok = st_ok and dom
     if not st_ok:
         # the same rewrite written field by field: all four fields are stored under the name-is-None test
@@ -803,6 +803,8 @@ def tdb_rules(ctx, A):
             else:
                 qrows.append(([], a0))
     okq = nq == 1 and bool(addr_locals) and bool(qrows) and all(v_[0] == 'var' and v_[1] in addr_locals for cs_, v_ in qrows)
+    # ... and the region queued with it carries the field's own doc text and base marker whatever else is set on the field
+    queued_region_fields(ctx, tdb, where)
     ctx.ob(['C01', 'C03', 'C20'], 'R-SLP', 'TDB|queued-address', okq,
            'the address queued with a field is the value of its `address` attribute on every path (named or `_`): %s' % [(show(v_)[:40], [(show(c)[:40], l) for c, l in cs_]) for cs_, v_ in qrows][:4], where)
     # every function of the type's impl block is built (its types resolved, its address required) — none is filtered out before
@@ -831,6 +833,71 @@ def tdb_rules(ctx, A):
            'every function of the type\'s impl block goes through function::build (unfiltered loop, every trip, error propagated): %s' % detf, where)
     # bail census (C03-D2)
     census(ctx, A)
+
+
+def queued_region_fields(ctx, tdb, where):
+    """doc and is_base of the region that `build` queues for a declared field: each is the value read from the field's attributes,
+    on every path — `doc: doc` in a literal, or a constructor followed by `if let Some(d) = doc { r = r.with_doc(d) }` / `if is_base
+    { r = r.marked_as_base() }`, each under its own test only"""
+    from r_function import attr_assignments
+    P = ctx.prog
+    base_locals = {l for lit, assigned, _sp in attr_assignments(tdb) if lit == 'base' for l in assigned if tdb.local_ty(l) == 'bool'}
+    regs = []
+    for c_ in tdb.calls(lambda r: r['path'] and r['path'].endswith('Vec::<T, A>::push')):
+        if len(c_['term']['args']) != 2:
+            continue
+        pe = strip(tdb.expr_of_operand(c_['term']['args'][1]))
+        comps = [v_ for _k, v_ in pe[2]] if pe[0] == 'agg' else (pe[1] if pe[0] == 'tuple' else [])
+        for r_ in comps:
+            r_ = strip(r_)
+            if (r_[0] == 'var' and tdb.local_ty(r_[1]) == REGION) or (r_[0] == 'agg' and r_[1].endswith('type_definition::Region')) or (r_[0] == 'call' and 'Region::' in r_[1]):
+                regs.append(r_)
+    if len(regs) != 1:
+        ctx.ob(['C17', 'C07'], 'R-SLP', 'TDB|queued-doc-and-base', False, 'expected one region queued per declared field, found %d' % len(regs), where)
+        return
+    reg = regs[0]
+
+    def final(field, is_source, over_ok):
+        rows = field_table(tdb, reg, field, kinds=True)
+        if rows is None:
+            return False, 'not readable'
+        base = [(cs, strip(v)) for cs, v, k in rows if k == 'base']
+        over = [(cs, strip(v)) for cs, v, k in rows if k == 'over']
+        det = '%s: base %s; later %s' % (field, sorted({show(v)[:30] for cs, v in base}), [(show(v)[:30], [(show(expand(tdb, c))[:40], l) for c, l in cs]) for cs, v in over])
+        if not over:
+            return bool(base) and all(is_source(v) for cs, v in base), det
+        return len(over) == 1 and over_ok(over[0][0], over[0][1], [v for cs, v in base]), det
+
+    def doc_source(v):
+        v = strip(v)
+        while v[0] == 'var' and len(tdb.defs().get(v[1], [])) == 1 and not (1 <= v[1] <= tdb.nargs):
+            v = strip(tdb.expr_of_def(tdb.defs()[v[1]][0]))
+        return bool(find_calls(v, 'Attributes::doc')) and unwrap_all(v)[0] == 'call' and unwrap_all(v)[1].endswith('Attributes::doc')
+
+    def doc_over(cs, v, bases):
+        # Some(payload of D) exactly under `D is Some`, over a base that is None
+        if not all(b[0] == 'agg' and b[1].endswith('Option::None') for b in bases):
+            return False
+        if not (v[0] == 'agg' and v[1].endswith('Option::Some') and v[2]):
+            return False
+        pl = strip(v[2][0][1])
+        if not (pl[0] == 'payload' and pl[2] == 'Some'):
+            return False
+        D = strip(pl[1])
+        return len(cs) == 1 and cs[0][0][0] == 'discr' and strip(cs[0][0][1]) == D and cs[0][1] == 'Some' and doc_source(D)
+
+    def base_source(v):
+        v = strip(v)
+        return v[0] == 'var' and v[1] in base_locals
+
+    def base_over(cs, v, bases):
+        if not all(b == ('int', 0, 'bool') for b in bases) or v != ('int', 1, 'bool'):
+            return False
+        return len(cs) == 1 and cs[0][1] is True and base_source(cs[0][0])
+    okd, detd = final('doc', doc_source, doc_over)
+    okb, detb = final('is_base', base_source, base_over)
+    ctx.ob(['C17', 'C07', 'C06'], 'R-SLP', 'TDB|queued-doc-and-base', bool(okd and okb and base_locals),
+           'the region queued for a field has the field\'s own doc text and base marker, each set under its own test only: %s ;; %s' % (detd, detb), where)
 
 
 def diff_sem(fn, amount):
